@@ -2009,23 +2009,23 @@ MANIFEST = {
     "design_ref": "DESIGN.md 4/C02",
 }
 FINDINGS = [
-    {"status": "fixed", "key": "accepted:cites-enclosing-item", "commit": "e9151fe",
+    {"status": "fixed", "key": "accepted:cites-enclosing-item", "commit": "e77df27",
      "what": "check_proof(no_gaps=True) returned |- false for a proof in which ONE ProofItem object (id 2, citing 0) sits inside the "
              "stated block 0 and again at top level: the id guard looked the item up by its id instead of comparing it with the walked position"},
-    {"status": "fixed", "key": "accepted:cites-negative-index", "commit": "2a8cdfa",
+    {"status": "fixed", "key": "accepted:cites-negative-index", "commit": "4b8cb46",
      "what": "check_proof accepted `0: |- false by substitution {} from -1`: Proof.find_item used Python's negative indexing, so the line cited itself"},
-    {"status": "fixed", "key": "accepted:cites-itself", "commit": "21a8a10",
+    {"status": "fixed", "key": "accepted:cites-itself", "commit": "796e286",
      "what": "check_proof accepted an item at position 0 carrying id 5 and citing 0 (itself): ids were never compared with positions"},
-    {"status": "fixed", "key": "accepted:cites-unverified-item", "commit": "233066f",
+    {"status": "fixed", "key": "accepted:cites-unverified-item", "commit": "82c385d",
      "what": "check_proof accepted a citation of an empty line (rule '') that carries a statement nobody verified"},
-    {"status": "fixed", "key": "accepted:cites-unverified-or-closed", "commit": "233066f",
+    {"status": "fixed", "key": "accepted:cites-unverified-or-closed", "commit": "82c385d",
      "what": "the same with the real rules: `0: |- false by ''; 1: |- false by substitution {} from 0` was accepted"},
-    {"status": "fixed", "key": "accepted:result-not-verified", "commit": "233066f",
+    {"status": "fixed", "key": "accepted:result-not-verified", "commit": "82c385d",
      "what": "check_proof returned the unverified statement of a final empty line as the proved theorem"},
-    {"status": "fixed", "key": "accepted:block-result-unverified", "commit": "233066f",
+    {"status": "fixed", "key": "accepted:block-result-unverified", "commit": "82c385d",
      "what": "a subproof block ending in a stated empty line passed that statement on as the block's result"},
-    {"status": "fixed", "key": "extend:admitted-unproved:wrong-conclusion", "commit": "0c6ef31",
+    {"status": "fixed", "key": "extend:admitted-unproved:wrong-conclusion", "commit": "29aebf1",
      "what": "checked_extend installed Theorem('bogus', |- false, prf) as proved although prf proves something else"},
-    {"status": "fixed", "key": "extend:admitted-unproved:proof-not-justified:gap-tolerated-with-no-gaps", "commit": "0c6ef31",
+    {"status": "fixed", "key": "extend:admitted-unproved:proof-not-justified:gap-tolerated-with-no-gaps", "commit": "29aebf1",
      "what": "checked_extend installed a theorem as proved although its proof contains a placeholder"},
 ]
